@@ -1,5 +1,6 @@
 (** C06 — checkpoint/restore at any time boundary is invisible.  Property theorems only. *)
-From Akita Require Import Lib.Base Lib.AbsSim Lib.AbsSimProofs C06.Model C06.Exec C06.Proofs C06.HeapBridge.
+From Akita Require Import Lib.Base Lib.AbsSim Lib.AbsSimProofs C06.Model C06.Exec C06.Proofs C06.HeapBridge C06.EngineBridge.
+From Akita Require Lib.Engine.
 Local Open Scope N_scope.
 
 (** Restoring a queue snapshot (events in pop order) into a fresh queue re-assigns
@@ -104,3 +105,82 @@ Proof.
   split; [eapply init_sim_wfs; exact E|].
   vm_compute in E. injection E as <-. vm_compute. split; lia.
 Qed.
+
+(** The engine model of C01/C02 (Lib/Engine: the binary heap of eventqueue.go and the
+    run loops of serialengine.go, tied to the Go code by the C01 and C02 harnesses)
+    refines the abstract simulation the theorems above are stated on: related start
+    states, the same handler program => Run handles the same events in the same
+    order, ends the same way and ends in related states. *)
+Theorem c06_heap_engine_run_refines_abstract :
+  forall (W Ev : Type) (ev_time : Ev -> N) (ev_sec : Ev -> bool) (H : W -> Ev -> W * list Ev)
+         n w en s, ERel W Ev ev_time w en s ->
+  let r := Engine.run ev_time ev_sec H n w en in
+  let '(tr, f, o) := AbsSim.run W Ev ev_time ev_sec H n s in
+  out_rel r.(Engine.r_out) o /\
+  (r.(Engine.r_out) <> Engine.Panicked ->
+     log_events Ev r.(Engine.r_log) = tr /\ ERel W Ev ev_time r.(Engine.r_hs) r.(Engine.r_en) f).
+Proof. exact run_rel. Qed.
+Print Assumptions c06_heap_engine_run_refines_abstract.
+
+Theorem c06_heap_engine_run_until_refines_abstract :
+  forall (W Ev : Type) (ev_time : Ev -> N) (ev_sec : Ev -> bool) (H : W -> Ev -> W * list Ev)
+         b n w en s, ERel W Ev ev_time w en s ->
+  let r := Engine.run_until ev_time ev_sec H b n w en in
+  let '(tr, f, o) := AbsSim.run_until W Ev ev_time ev_sec H b n s in
+  out_rel r.(Engine.r_out) o /\
+  (r.(Engine.r_out) <> Engine.Panicked ->
+     log_events Ev r.(Engine.r_log) = tr /\ ERel W Ev ev_time r.(Engine.r_hs) r.(Engine.r_en) f).
+Proof. exact run_until_rel. Qed.
+Print Assumptions c06_heap_engine_run_until_refines_abstract.
+
+(** C06 on the heap engine itself: RunUntil any boundary, save (time + both heaps
+    drained in pop order), load into fresh heaps, Run: the same events are handled,
+    the run ends the same way and in the same observable state (handler state, time,
+    queue contents in pop order) as the uninterrupted continuation, and the
+    uninterrupted Run from the start handles the concatenation. *)
+Theorem c06_heap_engine_checkpoint_invisible :
+  forall (W Ev : Type) (ev_time : Ev -> N) (ev_sec : Ev -> bool) (H : W -> Ev -> W * list Ev)
+         w en s b n1, ERel W Ev ev_time w en s ->
+  let r1 := Engine.run_until ev_time ev_sec H b n1 w en in
+  r1.(Engine.r_out) = Engine.Done ->
+  forall n2,
+    let ra := Engine.run ev_time ev_sec H n2 r1.(Engine.r_hs) r1.(Engine.r_en) in
+    let rb := Engine.run ev_time ev_sec H n2 r1.(Engine.r_hs) (he_load Ev ev_time (he_save Ev ev_time r1.(Engine.r_en))) in
+    rb.(Engine.r_out) = ra.(Engine.r_out) /\
+    (ra.(Engine.r_out) <> Engine.Panicked ->
+       log_events Ev rb.(Engine.r_log) = log_events Ev ra.(Engine.r_log) /\
+       he_obs W Ev ev_time rb = he_obs W Ev ev_time ra /\
+       exists k, let rw := Engine.run ev_time ev_sec H (k + n2) w en in
+                 rw.(Engine.r_out) = ra.(Engine.r_out) /\
+                 log_events Ev rw.(Engine.r_log) = log_events Ev r1.(Engine.r_log) ++ log_events Ev ra.(Engine.r_log) /\
+                 he_obs W Ev ev_time rw = he_obs W Ev ev_time ra).
+Proof. exact engine_checkpoint_invisible. Qed.
+Print Assumptions c06_heap_engine_checkpoint_invisible.
+
+(** ... and every engine obtained from NewSerialEngine by Schedule calls is in the
+    domain of the three theorems above. *)
+Theorem c06_heap_engine_from_new_related :
+  forall (W Ev : Type) (ev_time : Ev -> N) (ev_sec : Ev -> bool) (w : W) inits,
+  let '(en, _, ok) := Engine.schedule_all ev_time ev_sec Engine.new_engine inits in
+  ok = true -> exists s, ERel W Ev ev_time w en s.
+Proof. exact engine_from_new_related. Qed.
+Print Assumptions c06_heap_engine_from_new_related.
+
+(** Non-vacuity on the heap engine: events (time, secondary?, tag); the handler of a
+    primary event with tag < 3 schedules a secondary at the same instant and a primary
+    2 later.  Cut at 3: events were handled, events remain, the restored engine differs
+    (sequence numbers) yet the run after it agrees. *)
+Example c06_heap_engine_nonvacuous :
+  let ev_time := fun e : N * bool * N => fst (fst e) in
+  let ev_sec := fun e : N * bool * N => snd (fst e) in
+  let H := fun (w : list N) (e : N * bool * N) =>
+             (snd e :: w,
+              if snd (fst e) then [] else
+              if snd e <? 3 then [(fst (fst e), true, snd e + 10); (fst (fst e) + 2, false, snd e + 1)] else []) in
+  let '(en, _, ok) := Engine.schedule_all ev_time ev_sec Engine.new_engine [(1, false, 0); (1, true, 20); (2, false, 1)] in
+  ok = true /\
+  let r1 := Engine.run_until ev_time ev_sec H 3 50 [] en in
+  r1.(Engine.r_out) = Engine.Done /\ (3 <= length r1.(Engine.r_log))%nat /\ (0 < Engine.q_len (Engine.e_p r1.(Engine.r_en)))%nat /\
+  he_load _ ev_time (he_save _ ev_time r1.(Engine.r_en)) <> r1.(Engine.r_en) /\
+  (Engine.run ev_time ev_sec H 50 r1.(Engine.r_hs) r1.(Engine.r_en)).(Engine.r_out) = Engine.Done.
+Proof. vm_compute. repeat split; try lia. discriminate. Qed.
